@@ -191,17 +191,24 @@ impl FixtureDatabase {
 
         files_to_process.par_iter().for_each(|path| {
             debug!("Found test/conftest file: {:?}", path);
-            match std::fs::read_to_string(path) {
-                Ok(content) => {
-                    self.analyze_file_fresh(path.clone(), &content);
-                }
-                Err(err) => {
-                    if err.kind() == std::io::ErrorKind::PermissionDenied {
-                        debug!("Permission denied reading file: {:?}", path);
-                        permission_denied_count.fetch_add(1, Ordering::Relaxed);
-                    } else {
-                        error!("Failed to read file {:?}: {}", path, err);
-                        error_count.fetch_add(1, Ordering::Relaxed);
+            // A document the editor opened before the scan got here is already indexed from its
+            // buffer: the on-disk text must neither replace it nor be indexed next to it.
+            let already_open = self
+                .file_cache
+                .contains_key(&self.get_canonical_path(path.clone()));
+            if !already_open {
+                match std::fs::read_to_string(path) {
+                    Ok(content) => {
+                        self.analyze_file_fresh(path.clone(), &content);
+                    }
+                    Err(err) => {
+                        if err.kind() == std::io::ErrorKind::PermissionDenied {
+                            debug!("Permission denied reading file: {:?}", path);
+                            permission_denied_count.fetch_add(1, Ordering::Relaxed);
+                        } else {
+                            error!("Failed to read file {:?}: {}", path, err);
+                            error_count.fetch_add(1, Ordering::Relaxed);
+                        }
                     }
                 }
             }
